@@ -192,7 +192,7 @@ def r05_16(run, model):
                    (f"inside the arm `{pt[:60]}`" if arm is not None else "outside every arm that names a resolution: it is reached for `NameRef::Local` too"),
                    witness="fn run(string_println: (string) -> unit) { string_println(\"x\") }: the call goes to the builtin, not to the parameter; "
                            "fn twice(f: (int32) -> int32) with a top-level `fn f(s: string)` is rejected for a type mismatch")
-    run.floor("function-table look-ups in the functions that know NameRef::Local", n, 3)
+    run.floor("function-table look-ups in the functions that know NameRef::Local", n, 5)
 
 
 def r05_2(run, model):
